@@ -34,9 +34,11 @@ Definition first_seg (p : term) : option (string * bool) :=
      (`Path::get_ident`): no leading colon, one segment, no arguments *)
   match p with
   | Node lp (Node ls sargs :: rest) =>
-      Some (ld ls,
-            String.eqb (ld lp) "" && (match rest with [] => true | _ => false end) &&
-            (match sargs with [Node la []] => is_kind "ANone" la | _ => false end))
+      if is_kind "Path" lp && is_kind "Seg" ls then
+        Some (ld ls,
+              String.eqb (ld lp) "" && (match rest with [] => true | _ => false end) &&
+              (match sargs with [Node la []] => is_kind "ANone" la | _ => false end))
+      else None
   | _ => None
   end.
 
@@ -213,3 +215,54 @@ Definition canon (b : term) : term :=
       Node lb [Node lg (map (ren_gp ix) gps); ren ix tr; ren ix self; ren ix wh; ren ix items]
   | _ => b
   end.
+
+(* ---- alpha-renaming of a block (specification used by the invariance theorems):
+   lifetimes renamed by [rl], type/const parameter occurrences (first path segments) by [rt],
+   declarations accordingly; nothing else is touched ---- *)
+Section Alpha.
+  Variables rl rt : string -> string.
+
+  Definition rk (k : pkind) : string -> string := match k with PLt => rl | _ => rt end.
+
+  Definition rename_first_seg (p : term) : term :=
+    match p with
+    | Node lp (Node ls sargs :: rest) =>
+        if is_kind "Path" lp && is_kind "Seg" ls
+        then Node lp (Node (K (lk ls) (rt (ld ls))) sargs :: rest) else p
+    | _ => p
+    end.
+
+  Fixpoint alpha (t : term) {struct t} : term :=
+    match t with
+    | Node l ks =>
+        let ks' := map alpha ks in
+        if is_kind "Lifetime" l || is_kind "PredLifetime" l then Node (K (lk l) (rl (ld l))) ks'
+        else if is_kind "TPath" l || is_kind "EPath" l then
+          match ks' with
+          | [q; p] => Node l [q; rename_first_seg p]
+          | _ => Node l ks'
+          end
+        else Node l ks'
+    end.
+
+  Definition alpha_gp (gp : term) : term :=
+    match gp with
+    | Node l ks =>
+        match gp_decl gp with
+        | Some (k, n) => Node (K (lk l) (rk k n)) (map alpha ks)
+        | None => Node l (map alpha ks)
+        end
+    end.
+
+  Definition alpha_block (b : term) : term :=
+    match b with
+    | Node lb [Node lg gps; tr; self; Node lw preds; items] =>
+        Node lb [Node lg (map alpha_gp gps); alpha tr; alpha self; Node lw (map alpha preds); alpha items]
+    | _ => b
+    end.
+
+  Definition st_map (st : pstate) : pstate :=
+    {| unindexed := map (fun e => (fst e, rk (fst e) (snd e))) (unindexed st);
+       indexed := map (fun e => (fst (fst e), rk (fst (fst e)) (snd (fst e)), snd e)) (indexed st);
+       counter := counter st |}.
+End Alpha.
